@@ -561,15 +561,19 @@ func (e *Engine) verifyFunc(fn *ssa.Function, spec *FuncSpec) (vc *VC, err error
 		// each postcondition may use the ones listed before it (they are proved separately for the same state)
 		var proved []string
 		for i, en := range spec.Ensures {
-			g := vc.evalBool(env2, en.Expr)
 			lab := en.Label
 			if lab == "" {
 				lab = fmt.Sprint(i)
 			}
+			if spec.ImplCheck && !strings.HasPrefix(lab, "impl.") {
+				// assumed part of a contract whose body is only checked for its `impl.` clauses
+				continue
+			}
+			g := vc.evalBool(env2, en.Expr)
 			vc.oblige("ensures", lab, rt.pc, mkImp(mkAnd(proved...), g), fn.Pos(), en.Src)
 			proved = append(proved, vc.define("ens", SBool, g))
 		}
-		if spec.HasModifies || spec.Pure {
+		if (spec.HasModifies || spec.Pure) && !spec.ImplCheck {
 			vc.frameObligations(fr, rt.st, rt.pc, targets)
 		}
 	}
